@@ -399,17 +399,20 @@ fn dechunk(mut b: &[u8]) -> Option<Vec<u8>> {
     let mut out = Vec::new();
     loop {
         let line_end = b.windows(2).position(|w| w == b"\r\n")?;
-        let size =
-            usize::from_str_radix(std::str::from_utf8(&b[..line_end]).ok()?.trim(), 16).ok()?;
+        // `chunk-size [ ";" chunk-ext ]`: extensions are legal and ignored.
+        let size_field = b[..line_end].split(|c| *c == b';').next()?;
+        let size = usize::from_str_radix(std::str::from_utf8(size_field).ok()?.trim(), 16).ok()?;
         b = &b[line_end + 2..];
         if size == 0 {
             return Some(out);
         }
-        if b.len() < size + 2 {
+        // A declared size near usize::MAX must be rejected, not overflow.
+        let end = size.checked_add(2)?;
+        if b.len() < end || &b[size..end] != b"\r\n" {
             return None;
         }
         out.extend_from_slice(&b[..size]);
-        b = &b[size + 2..];
+        b = &b[end..];
     }
 }
 
